@@ -55,13 +55,33 @@ def correspond(ctx):
                    if why == "hang" else
                    "writes of sizes %s, schedule %s: Close returned nil but the storing side consumed %d of %d bytes" % (r["script"], " ".join(r["sched"]), r["consumed"], r["expected"]))
             violations.append(Violation("c12-" + why, msg, rp))
+    # free-running stress (content equality), with the race detector in the thorough tier / search
+    race = ctx.thorough
+    rounds = 600 if ctx.thorough else 150
+    rc, out = C.go_test("./internal/utils/async", "TestVerifC12Stress", {"VERIF_OUT": ctx.rd, "VERIF_SEED": ctx.seed, "VERIF_ROUNDS": rounds}, race=race, timeout=3000)
+    sp = os.path.join(ctx.rd, "c12.stress.json")
+    stress = json.load(open(sp)) if os.path.exists(sp) else None
+    if stress is None or (rc != 0 and "DATA RACE" not in out):
+        rp = C.write_replay("C12", "stress-failure", {"property": "C12", "kind": "impl-run-failed", "go_test_output": out[-6000:]})
+        violations.append(Violation("c12-stress-failed", "free-running writer/storer stress failed to run: " + out.strip().split("\n")[-1][:160], rp))
+    else:
+        if stress["bad"]:
+            b = stress["bad"][0]
+            rp = C.write_replay("C12", "stress", {"property": "C12", "kind": "stress", "bad": stress["bad"][:5], "seed": ctx.seed,
+                                "replay_env": "VERIF_ROUNDS=%d VERIF_SEED=%d go test -run TestVerifC12Stress" % (rounds, ctx.seed)})
+            violations.append(Violation("c12-stress-content", "free-running writer/storer, round %d (%d writes): Close returned but the storing side got %s bytes, expected %d (first difference at offset %d)"
+                                        % (b["Round"], b["Writes"], b["Got"], b["Want"], b["FirstDiff"]), rp))
+        if "DATA RACE" in out:
+            rp = C.write_replay("C12", "race", {"property": "C12", "kind": "race", "report": out[:6000]})
+            violations.append(Violation("c12-race", "data race between Write and the storing side's Read (race detector report in the replay)", rp))
     distinct = len(set((tuple(r["script"] or []), tuple(r["trace"])) for r in runs))
     nontriv = len(set((tuple(r["script"] or []), tuple(r["trace"])) for r in runs if len(set(r["sched"])) > 1))
     cov = {"evaluations": len(runs), "distinct_nontrivial": nontriv,
            "rule": "enforced schedules of writer (Write sizes from {0,1,3,5,32767,32768,32769}, then Close) and storing goroutine on the real readWriter, stateless DFS over actor choices at operation boundaries and hook points; distinct = different event trace; non-trivial = both actors stepped; the two repaired witness schedules are replayed first",
            "traces_validated_against_impl": len(runs), "distribution": {"distinct_traces": distinct},
            "samples": [{"script": r["script"], "schedule": " ".join(r["sched"]), "consumed": r["consumed"], "expected": r["expected"], "hang": r["hang"]} for r in runs[:4]],
-           "summary": "%d enforced schedules: Close returned, content = concatenation" % len(runs)}
+           "stress_rounds": (stress or {}).get("completed", 0), "stress_race_detector": race,
+           "summary": "%d enforced schedules + %d free-running rounds: Close returned, content = concatenation" % (len(runs), (stress or {}).get("completed", 0))}
     return {"violations": violations, "coverage": cov}
 
 
